@@ -759,17 +759,25 @@ func (r *realm) registerMetaProcedure(procedure wamp.URI, f func(*wamp.Invocatio
 
 func (r *realm) metaProcedureHandler() {
 	defer close(r.metaDone)
+	// When the realm is closing, the meta session stops reading what is sent
+	// to it. Do not wait forever then to send a response, since close() waits
+	// for this handler to exit.
+	metaSessDone := r.metaSess.RecvDone()
 	var rsp wamp.Message
 	for msg := range r.metaPeer.Recv() {
 		switch msg := msg.(type) {
 		case *wamp.Invocation:
 			metaProcHandler, ok := r.metaProcMap[msg.Registration]
 			if !ok {
-				r.metaPeer.Send() <- &wamp.Error{
+				select {
+				case r.metaPeer.Send() <- &wamp.Error{
 					Type:    msg.MessageType(),
 					Request: msg.Request,
 					Details: wamp.Dict{},
 					Error:   wamp.ErrNoSuchProcedure,
+				}:
+				case <-metaSessDone:
+					return
 				}
 				continue
 			}
@@ -782,7 +790,11 @@ func (r *realm) metaProcedureHandler() {
 		default:
 			r.log.Println("Meta procedure received unexpected", msg.MessageType())
 		}
-		r.metaPeer.Send() <- rsp
+		select {
+		case r.metaPeer.Send() <- rsp:
+		case <-metaSessDone:
+			return
+		}
 	}
 }
 
